@@ -2,7 +2,7 @@
    Only ExtrOcamlBasic is used: nat, Z stay the extracted inductive types. *)
 From Coq Require Import List ZArith Extraction ExtrOcamlBasic.
 From LMBase Require Import Res ListX.
-From LMDense Require Import DenseModel DenseProofs.
+From LMDense Require Import DenseModel DenseProofs DenseReg DenseCheck.
 
 Definition z_t_run := @t_run Z 0%Z.
 Definition z_s_run := @s_run_pads Z 0%Z.
@@ -14,6 +14,21 @@ Definition z_s_set := @s_set Z.
 Definition z_s_clone := @s_clone Z.
 Definition z_take_mixed := @take_mixed Z.
 
+(* register file of matrices (DenseReg) and the property checker (DenseCheck) *)
+Definition z_rt_step := @rt_step Z 0%Z.
+Definition z_rs_step := @rs_step Z 0%Z.
+Definition z_mabs := @mabs Z.
+Definition z_new0 (C S : nat) (pad : nat -> Z) : @smat Z := m_resize 0%Z C S pad (m_empty 0) 0.
+Definition z_check_C19 (C S : nat) (pat : list bool) := @check_C19 Z 0%Z C S Z.eqb pat.
+Definition z_check_robs (S : nat) := @check_robs Z S Z.eqb.
+Definition z_check_mobs (S : nat) := @check_mobs Z S Z.eqb.
+Definition z_check_fobs (C : nat) (pat : list bool) := @check_fobs Z C Z.eqb pat.
+Definition z_first_bad (C S : nat) := @first_bad Z 0%Z C S Z.eqb.
+Definition z_m_observe (S : nat) := @m_observe Z S Z.eqb.
+Definition z_take_mixed_o := @take_mixed_o Z.
+
 Extraction Language OCaml.
 Extraction "dense_model.ml" z_t_run z_s_run z_abs z_ravel z_s_eqb z_s_fill z_s_set z_s_clone z_take_mixed
-  stride row_bytes row_addr.
+  stride row_bytes row_addr
+  z_rt_step z_rs_step z_mabs z_new0 z_check_C19 z_check_robs z_check_mobs z_check_fobs z_first_bad
+  z_m_observe z_take_mixed_o mixed_lens.
